@@ -238,6 +238,33 @@ theorem update_get_spot (spots : List (Nat × Nat)) (g : List Rat) (d : Data) (h
   have : List.idxOf ((spots[i]).1, (spots[i]).2) spots = i := hnd.idxOf_getElem i hi
   simp [this, hi]
 
+/-- `_catch_missing` never touches a cell that is not solved for: a missing measurement variable, exogenous value,
+initial or terminal condition stays missing (and a present one stays as it is) -/
+theorem catchMissing_get_other (spots : List (Nat × Nat)) (fb : Rat) (d : Data) (q : Nat) (t : Int)
+    (h : ∀ c : Nat, t = (c : Int) → (q, c) ∉ spots) : (catchMissing spots fb d).get q t = d.get q t := by
+  by_cases hin : 0 ≤ t ∧ q < d.rows ∧ t.toNat < d.cols
+  · obtain ⟨h0, hq, ht⟩ := hin
+    obtain ⟨c, rfl⟩ := Int.eq_ofNat_of_zero_le h0
+    simp only [Int.toNat_natCast] at ht
+    unfold catchMissing
+    rw [Data.get_modify _ _ _ _ hq ht]
+    simp [h c rfl]
+  · exact Data.get_modify_out d _ hin
+
+/-- … a finite value at an unknown cell is kept, a missing one becomes the fallback value -/
+theorem catchMissing_get_spot (spots : List (Nat × Nat)) (fb : Rat) (d : Data) (q c : Nat)
+    (hq : q < d.rows) (hc : c < d.cols) (hs : (q, c) ∈ spots) :
+    (catchMissing spots fb d).get q (c : Int) = some ((d.get q (c : Int)).getD fb) := by
+  unfold catchMissing
+  rw [Data.get_modify _ _ _ _ hq hc]
+  cases hv : d.get q (c : Int) <;> simp [hs]
+
+/-- after `_catch_missing` no unknown cell inside the array is missing -/
+theorem catchMissing_spots_finite (spots : List (Nat × Nat)) (fb : Rat) (d : Data) (q c : Nat)
+    (hq : q < d.rows) (hc : c < d.cols) (hs : (q, c) ∈ spots) :
+    (catchMissing spots fb d).get q (c : Int) ≠ none := by
+  rw [catchMissing_get_spot spots fb d q c hq hc hs]; simp
+
 theorem wrtSpots_nodup (endo cols : List Nat) (he : endo.Nodup) (hc : cols.Nodup) :
     (wrtSpots endo cols).Nodup := by
   unfold wrtSpots
